@@ -223,6 +223,10 @@ def run(chk, facts):
                 spath = node["p"]
                 ok = (info == "ty" and spath in TY_CARRIERS) or info == "annotate"
                 desc = f"`{what}` is stored in field `{info}` of `{spath}`"
+            elif kind == "assign" and strip(node["l"]).get("k") == "field" and strip(node["l"])["name"] == "annotate":
+                # `state.annotate = args.annotate`: a copy into another annotate field (the target itself is a write, not a read)
+                ok = True
+                desc = f"`{what}` is copied into the field `annotate` (`{src(node)[:60]}`)"
             else:
                 ok = False
                 desc = f"`{what}` reaches a {kind} (`{src(node)[:120]}`)"
@@ -251,7 +255,7 @@ def run(chk, facts):
                     chk.ob("R-C11-1", f"{fn['qual']}|control|{bad[:40]}", False,
                            f"in {fn['qual']}: code that runs only for one setting of annotate contains {bad}", loc)
         chk.sample({"rule": "R-C11-1", "fn": fn["qual"], "tainted_locals": sorted(repr(b) for b in t.tainted), "occurrences": len(occs)})
-    chk.floor("R-C11-1", n_src, 3, "generate:: functions that read annotate")
+    chk.floor("R-C11-1", n_src, 2, "generate:: functions that read annotate")
 
     # ---------------- R-C11-3 (consumers of Core.ty) ----------------
     n_cons = 0
@@ -313,7 +317,7 @@ def run(chk, facts):
                    f"annotation guard `{src(g['init'])[:90]}` implies annotate && expand_ty" if ok else
                    f"annotation guard `{src(g['init'])[:110]}` can hold with {[(a, v) for a, v in cex.items() if a in ('state.annotate', 'state.expand_ty')]}: "
                    "an annotation is emitted in a position where Python has no syntax for one (e.g. a lambda parameter), so the annotate=on output is not the same program", loc)
-        chk.floor("R-C11-4", len(guards), 2, "annotation guards in convert_def")
+        chk.floor("R-C11-4", len(guards), 1, "annotation guards in convert_def")
         cn = syn.one_fn("convert_node", mod="generate::convert")
         from .c08 import _arm
         arm = _arm(cn, "NodeTy::AnonFun")
